@@ -48,23 +48,29 @@ impl vstd::std_specs::cmp::PartialEqSpecImpl for DerivationPath {
     open spec fn eq_spec(&self, other: &Self) -> bool { *self == *other }
 }
 
-#[verifier::external_body]
-pub struct ChannelPublicKeys { _p: u8 }
+// lightning::ln::chan_utils::ChannelPublicKeys (all fields pub in LDK); the basepoint newtypes are
+// modelled by their inner PublicKey accessed through `.0`
+pub struct VxKeyWrap(pub PublicKey);
+impl Clone for VxKeyWrap { #[verifier::external_body] fn clone(&self) -> (r: Self) ensures r == *self { unimplemented!() } }
+impl Copy for VxKeyWrap {}
+pub struct ChannelPublicKeys {
+    pub funding_pubkey: PublicKey,
+    pub revocation_basepoint: VxKeyWrap,
+    pub payment_point: PublicKey,
+    pub delayed_payment_basepoint: VxKeyWrap,
+    pub htlc_basepoint: VxKeyWrap,
+}
 impl Clone for ChannelPublicKeys { #[verifier::external_body] fn clone(&self) -> (r: Self) ensures r == *self { unimplemented!() } }
-impl PartialEq for ChannelPublicKeys { #[verifier::external_body] fn eq(&self, other: &Self) -> (r: bool) { unimplemented!() } }
-impl vstd::std_specs::cmp::PartialEqSpecImpl for ChannelPublicKeys {
-    open spec fn obeys_eq_spec() -> bool { true }
-    open spec fn eq_spec(&self, other: &Self) -> bool { *self == *other }
-}
 
-#[verifier::external_body]
-pub struct TxCreationKeys { _p: u8 }
-impl Clone for TxCreationKeys { #[verifier::external_body] fn clone(&self) -> (r: Self) ensures r == *self { unimplemented!() } }
-impl PartialEq for TxCreationKeys { #[verifier::external_body] fn eq(&self, other: &Self) -> (r: bool) { unimplemented!() } }
-impl vstd::std_specs::cmp::PartialEqSpecImpl for TxCreationKeys {
-    open spec fn obeys_eq_spec() -> bool { true }
-    open spec fn eq_spec(&self, other: &Self) -> bool { *self == *other }
+// lightning::ln::chan_utils::TxCreationKeys (all fields pub in LDK)
+pub struct TxCreationKeys {
+    pub per_commitment_point: PublicKey,
+    pub revocation_key: VxKeyWrap,
+    pub broadcaster_htlc_key: VxKeyWrap,
+    pub countersignatory_htlc_key: VxKeyWrap,
+    pub broadcaster_delayed_payment_key: VxKeyWrap,
 }
+impl Clone for TxCreationKeys { #[verifier::external_body] fn clone(&self) -> (r: Self) ensures r == *self { unimplemented!() } }
 
 #[verifier::external_body]
 pub struct CommitmentTransaction { _p: u8 }
